@@ -188,10 +188,29 @@ func mentionsObjKey(info *types.Info, e ast.Node, key string) bool {
 // (e.g. x.flag.Load()), i.e. an expression whose truth is the flag's truth.
 func flagFact(info *types.Info, facts []Fact, key string, isField bool, val bool) bool {
 	for _, f := range facts {
-		if f.Tag != nil || f.Val != val {
+		if f.Tag != nil {
 			continue
 		}
 		e := unparen(f.Expr)
+		fv := f.Val
+		// integer flags: `X == 0` / `X != 0` / `X == 1`
+		if b, ok := e.(*ast.BinaryExpr); ok && (b.Op == token.EQL || b.Op == token.NEQ) {
+			other, konst := b.X, b.Y
+			if _, isC := constInt(info, konst); !isC {
+				other, konst = b.Y, b.X
+			}
+			if k, isC := constInt(info, konst); isC && (k == 0 || k == 1) {
+				// truth of "flag is set" implied by this fact
+				set := (k == 1) == (b.Op == token.EQL)
+				if !f.Val {
+					set = !set
+				}
+				e, fv = unparen(other), set
+			}
+		}
+		if fv != val {
+			continue
+		}
 		for {
 			switch x := e.(type) {
 			case *ast.StarExpr:
@@ -200,6 +219,15 @@ func flagFact(info *types.Info, facts []Fact, key string, isField bool, val bool
 			case *ast.CallExpr:
 				if sel, ok := unparen(x.Fun).(*ast.SelectorExpr); ok && len(x.Args) == 0 && sel.Sel.Name == "Load" {
 					e = unparen(sel.X)
+					continue
+				}
+				if strings.HasPrefix(CalleeName(info, x), "sync/atomic.Load") && len(x.Args) == 1 {
+					e = unparen(x.Args[0])
+					continue
+				}
+			case *ast.UnaryExpr:
+				if x.Op == token.AND {
+					e = unparen(x.X)
 					continue
 				}
 			}
